@@ -123,14 +123,12 @@ func (r *reference) resolveRef(cfg *Config, opts *options) (value, error) {
 		}
 
 		v, err = r.Path.GetValue(cfg, opts)
-		if err == nil {
-			if v == nil {
-				break
-			}
-
+		if err == nil && v != nil {
 			return v, nil
 		}
 
+		// not found in this configuration (the path does not exist, or only
+		// its last name is missing): try the next environment
 		if len(env) == 0 {
 			break
 		}
